@@ -16,9 +16,9 @@
                             page is free) and the thunk is CALLED
                             -> `exec <a> <to> <bytes> <get> ok|wrong:<v>|crash:<sig>|skip`
    hist plan (functions are `f<k>: func i64, i64:x`, modules in file order):
-     load <m> | reload <m> | link <iface> | set <iface> <f> | call <f> <x> | gen <f> | redef <0|1>
-     every command prints the event in the vocabulary of mirdrv_c03 (`u`, `ev ...` with the addresses
-     the library really produced) followed by `st` lines describing what is really in memory
+     load <m> | reload <m> | link <iface> | set <iface> <f> | call <f> <x> [callees] | gen <f> | redef <0|1> | opt <n>
+     every command prints the event(s) in the vocabulary of mirdrv_c03 (`u`, `ev ...` with the addresses
+     the library really produced, `show`) followed by `st` lines describing what is really in memory
      (kind = classification of the code found at the thunk's destination), `ret <f> <x> <value>` for calls.
    All output is compared with the Lean model by checks/c03.py. */
 #define _GNU_SOURCE
@@ -210,29 +210,6 @@ static const char *classify (int f, uint64_t to) {
     if (q == (void *) generate_func_and_redirect_to_bb_gen) return "bbwrap";
     return "wrapper-unknown-hook";
   }
-  /* _MIR_get_bb_thunk: movabs bb_version,%r10; jmp rel32 (to the bb wrapper), or, once the first
-     bb version exists, `jmp rel32` to its code (_MIR_replace_bb_thunk) */
-  if (gen_ctx != NULL && p[0] == 0x49 && p[1] == 0xba && p[10] == 0xe9) {
-    int32_t rel;
-    memcpy (&rel, p + 11, 4);
-    if ((uintptr_t) p + 15 + (int64_t) rel == (uintptr_t) bb_wrapper) {
-      bb_version_t bv;
-      memcpy (&bv, p + 2, 8);
-      if (it->data == NULL) return "bbthunk-without-stubs";
-      if (bv->bb_stub != &((struct bb_stub *) it->data)[0]) return "bbthunk-of-other-bb";
-      return "bbthunk";
-    }
-  }
-  if (it->data != NULL && gen_ctx != NULL) {
-    bb_version_t bv = DLIST_HEAD (bb_version_t, ((struct bb_stub *) it->data)[0].bb_versions);
-    if (bv != NULL && to == (uint64_t) (uintptr_t) bv->addr) return "bbthunk";
-    /* after the first bb version was generated the bb thunk is overwritten by `jmp rel32` to its code */
-    if (bv != NULL && bv->machine_code != NULL && p[0] == 0xe9) {
-      int32_t rel;
-      memcpy (&rel, p + 1, 4);
-      if ((uintptr_t) p + 5 + (int64_t) rel == (uintptr_t) bv->machine_code) return "bbthunk";
-    }
-  }
   /* _MIR_get_interp_shim: push rbx; save_pat...; ... movabs ctx,%rdi; movabs item,%rsi; movabs handler,%rax; call *%rax */
   if (p[0] == 0x53) {
     for (int i = 1; i < 260; i++)
@@ -248,10 +225,34 @@ static const char *classify (int f, uint64_t to) {
         return "shim";
       }
   }
+  /* _MIR_get_bb_thunk: movabs bb_version,%r10; jmp rel32 (to the bb wrapper), or, once the first
+     bb version exists, `jmp rel32` to its code (_MIR_replace_bb_thunk) */
+  if (gen_ctx != NULL && p[0] == 0x49 && p[1] == 0xba && p[10] == 0xe9) {
+    int32_t rel;
+    memcpy (&rel, p + 11, 4);
+    if ((uintptr_t) p + 15 + (int64_t) rel == (uintptr_t) bb_wrapper) {
+      bb_version_t bv;
+      memcpy (&bv, p + 2, 8);
+      if (it->data == NULL) return "bbthunk-without-stubs";
+      if (bv->bb_stub != &((struct bb_stub *) it->data)[0]) return "bbthunk-of-other-bb";
+      return "bbthunk";
+    }
+  }
+  /* (item->data is also used by the interpreter: it is read as bb stubs only when the destination is a bare jump) */
+  if (it->data != NULL && gen_ctx != NULL && p[0] == 0xe9) {
+    bb_version_t bv = DLIST_HEAD (bb_version_t, ((struct bb_stub *) it->data)[0].bb_versions);
+    /* after the first bb version was generated the bb thunk is overwritten by `jmp rel32` to its code */
+    if (bv != NULL && bv->machine_code != NULL && p[0] == 0xe9) {
+      int32_t rel;
+      memcpy (&rel, p + 1, 4);
+      if ((uintptr_t) p + 5 + (int64_t) rel == (uintptr_t) bv->machine_code) return "bbthunk";
+    }
+  }
   return "unknown";
 }
 
 static void print_state (void) {
+  printf ("show\n");
   for (int f = 0; f < MAXF; f++) {
     MIR_item_t it = fitem[f];
     if (it == NULL || first_addr[f] == NULL) continue;
@@ -361,10 +362,24 @@ static int hist_mode (const char *file) {
         alarm (0); in_call = 0;
         printf ("ret %d %lld crash:%d\n", f, x, sg);
       }
-      /* the address of what was generated by the call, if anything: machine code or the bb thunk */
-      printf ("ev call %d %llx\n", f,
-              (unsigned long long) (fitem[f]->u.func->machine_code != NULL ? (uint64_t) (uintptr_t) fitem[f]->u.func->machine_code
-                                                                          : cur_target (f)));
+      /* the address of what was generated by the call, if anything: machine code or the bb thunk;
+         the same for the (static) callees listed after <x>, in call order */
+      {
+        int fs[16], nfs = 0, pos = 0, g;
+        char *q = line;
+        fs[nfs++] = f;
+        if (sscanf (q, "call %*d %*d%n", &pos) >= 0 && pos > 0) {
+          q += pos;
+          while (nfs < 16 && sscanf (q, " %d%n", &g, &pos) == 1) { fs[nfs++] = g; q += pos; }
+        }
+        for (int j = 0; j < nfs; j++) {
+          g = fs[j];
+          if (g < 0 || g >= MAXF || fitem[g] == NULL) continue;
+          printf ("ev call %d %llx\n", g,
+                  (unsigned long long) (fitem[g]->u.func->machine_code != NULL ? (uint64_t) (uintptr_t) fitem[g]->u.func->machine_code
+                                                                              : cur_target (g)));
+        }
+      }
     } else {
       (void) b;
       printf ("E bad-line %s", line);
